@@ -154,9 +154,13 @@ func makeRemoteSource(sourceType string, u *url.URL, subPath string) (RemoteSour
 	// (such as RawPath) which do not survive String, and RemotePackage is
 	// compared with ==, so without this two addresses that print identically
 	// could compare as different.
-	if normU, err := url.Parse(u.String()); err == nil {
-		*u = *normU
+	normU, err := url.Parse(u.String())
+	if err != nil {
+		// For example a non-ASCII character in the zone of an IPv6 literal
+		// is accepted when read but printed in a form that is refused.
+		return RemoteSource{}, fmt.Errorf("URL cannot be written back in a form that can be read again: %w", err)
 	}
+	*u = *normU
 	if strings.Contains(u.EscapedPath(), "//") {
 		// "//" separates a package from a sub-path, so a package whose own
 		// printed path contains it could never be written as an address.
